@@ -20,6 +20,7 @@ import Golib.Lists.TableWire
 import Golib.Lists.LinkedAtomic
 import Golib.Lists.LinkedConc
 import Golib.Lists.CrossNum
+import Golib.Lists.PackTable
 
 namespace C13
 open Lists
@@ -523,6 +524,38 @@ example : (sortTable (goSort (fun less xs => xs.mergeSort less)) Growth.go
     [([1], ⟨1, ⟨3, false, #[.i 3, .i 1, .i 2]⟩⟩), ([2], ⟨5, ⟨3, false, #[.s [99], .s [97], .s [98]]⟩⟩)]
     [1] true).map absT = some [([1], 1, [.i 1, .i 2, .i 3]), ([2], 5, [.s [97], .s [98], .s [99]])] := by
   decide
+
+/-! ### the pack's lazy table: wire state and in-memory edits -/
+
+open Lists.Table in
+/-- **pack_unpack_merges.**  Read → Put(other columns) → Get / GetDataTable: a pack whose in-memory
+    table is `m` and whose `dataBytes` hold the encoding of `w` (keys of `w` pairwise distinct and
+    different from those of `m`) unpacks to the table `m` followed by `w` — every wire column is
+    there, with its key, type and contents — and the byte cache is emptied. -/
+theorem pack_unpack_merges (g : Growth) (hg : g.OK) (m w : T) (sz : Nat)
+    (hn : w.length ≤ 32767) (hw : ∀ e ∈ w, WFEntry e)
+    (hd : w.Pairwise (fun a b => (a.1 == b.1) = false))
+    (hf : ∀ a ∈ m, ∀ e ∈ w, (a.1 == e.1) = false) :
+    ∃ s', PackTable.unpack g { raw := writeTable w, rawSize := sz, table := m } = some s' ∧
+      s'.raw = [] ∧ s'.rawSize = 0 ∧ absT s'.table = absT m ++ absT w :=
+  PackTable.unpack_merges g hg m w sz hn hw hd hf
+
+/-- **pack_write_current_after_unpack.**  Every access that unpacks (Get, GetDataTable) empties the
+    byte cache, and a Write with an empty cache encodes the CURRENT in-memory table — so
+    Write → Get → edit the list → Write emits the edited table. -/
+theorem pack_write_current_after_unpack (g : Growth) (s s' : PackTable.St)
+    (h : PackTable.unpack g s = some s') (hne : s'.table ≠ []) :
+    (PackTable.write s').2 = ((Table.writeTable s'.table).length, Table.writeTable s'.table) :=
+  PackTable.write_current s' (PackTable.unpack_clears_cache g s s' h) hne
+
+/-- the code's cache, stated: while `dataBytes` is non-empty a Write re-emits it unchanged, whatever
+    was Put or edited since (Put does not touch `dataBytes`); see the observation in notes/C13.md -/
+theorem pack_write_cached (s : PackTable.St) (h : s.raw ≠ []) (k : Bytes) (c : Table.Col) :
+    (PackTable.write s).2 = (s.rawSize, s.raw) ∧
+    (PackTable.write (PackTable.put s k c)).2 = (s.rawSize, s.raw) := by
+  refine ⟨(PackTable.write_cached s h).1, ?_⟩
+  have := (PackTable.write_cached (PackTable.put s k c) (by simpa [PackTable.put] using h)).1
+  simpa [PackTable.put] using this
 
 /-! ### LinkedList -/
 
